@@ -74,6 +74,9 @@ func TestProp_Listener(t *testing.T) {
 		}
 		w := vkit.NewWorld(cfg)
 		defer w.Close()
+		if w.NodeID != nil {
+			w.NodeID.EmptyOnMiss = rapid.Bool().Draw(t, "emptySetOnMiss")
+		}
 		if rootState == "current-expired" {
 			now := time.Now()
 			w.InstallRoots(vkit.MintRoot(now.Add(-48*time.Hour), now.Add(-time.Hour)), vkit.MintRoot(now.Add(-24*time.Hour), now.Add(24*time.Hour)))
